@@ -48,7 +48,10 @@ def walk_local(node: ast.AST, include_root: bool = True) -> Iterator[ast.AST]:
 def walk_body(fn: ast.AST) -> Iterator[ast.AST]:
     """All nodes of a function body (own scope only, nested defs not entered)."""
     for st in fn.body:
-        yield from walk_local(st)
+        if isinstance(st, ScopeNode):
+            yield st  # a nested def/class that is a direct statement: the node only, not its body
+        else:
+            yield from walk_local(st)
 
 
 def calls(node: ast.AST, local: bool = True) -> Iterator[ast.Call]:
@@ -157,6 +160,9 @@ def assigned_paths(st: ast.AST) -> Set[str]:
             if d:
                 out.add(d)
 
+    if isinstance(st, ScopeNode):
+        nm = getattr(st, "name", None)
+        return {nm} if nm else set()
     for n in walk_local(st):
         if isinstance(n, ast.Assign):
             for t in n.targets:
@@ -184,6 +190,8 @@ def assigned_paths(st: ast.AST) -> Set[str]:
 
 
 def has_suspension(node: ast.AST) -> bool:
+    if isinstance(node, ScopeNode):
+        return False
     return any(isinstance(n, (ast.Await, ast.Yield, ast.YieldFrom)) for n in walk_local(node))
 
 
